@@ -455,35 +455,17 @@ func ruleP02Close(p *Prog, r *Report) {
 		msg, how := p.checkForwarding(f, e, lastResultIdx)
 		r.check(msg == "", rule, "close:error", p.instrPos(eor), "EndOpenRange error -> error ("+how+")", "an EndOpenRange error does not fail the evaluation: "+msg)
 	}
-	// the end time: result 0 of a local closure (or inline); gather (guard, value) rows
-	endC, idx := callOf(args[0])
-	var rows []*ssa.Return
-	var tErr ssa.Value
-	var sel *ssa.Function
-	if endC != nil && idx == 0 {
-		if g := staticCallee(endC); g != nil && g.Parent() == f {
-			sel = g
-			rows = returnsOf(g)
-			tErr = resultOf(endC, 1)
-		}
-	}
-	if sel == nil {
-		r.undecided(rule, "end-time", p.instrPos(eor), "the end time is not selected by a local function literal returning (time, error)")
-		return
-	}
-	if tErr == nil {
-		r.bad(rule, "end-time:error", p.instrPos(endC), "the error of the end-time selection is discarded")
-	} else {
-		msg, how := p.checkForwarding(f, tErr, lastResultIdx)
-		r.check(msg == "" && knownNil(eor.Block(), tErr), rule, "end-time:error", p.instrPos(endC), "unclosable record -> error before EndOpenRange ("+how+")", "a record that cannot be closed at this instant does not fail the evaluation: "+msg)
+	// the end time: gather (guards, value, error) rows through a local closure's returns and
+	// through phis (inlined if/else chains)
+	rows := valueRows(args[0], 0, map[ssa.Value]bool{})
+	for i := range rows {
+		rows[i].guards = append(rows[i].guards, guardsOf(eor.Block())...)
 	}
 	seen := map[int64]bool{}
-	sawErr := false
-	for i, ret := range rows {
-		key := fmt.Sprintf("end-time:return#%d", i)
+	for i, rw := range rows {
+		key := fmt.Sprintf("end-time:row#%d", i)
 		var posK []int64
-		nNeg := 0
-		for _, g := range guardsOf(ret.Block()) {
+		for _, g := range rw.guards {
 			a, b, ok := dateEqGuard(g)
 			if !ok {
 				continue
@@ -503,29 +485,38 @@ func ruleP02Close(p *Prog, r *Report) {
 			}
 			if g.Pol {
 				posK = append(posK, k)
-			} else {
-				nNeg++
 			}
 		}
-		val := ret.Results[0]
-		if isNilConst(val) {
-			r.check(p.nilnessAt(ret.Block(), ret.Results[1], 0) == nnNonNil, rule, key+":error", p.instrPos(ret), "no end time -> error", "neither end time nor error")
-			if len(posK) == 0 && nNeg >= 2 {
-				sawErr = true
+		pos := p.instrPos(eor)
+		if rw.at != nil {
+			pos = p.instrPos(rw.at)
+		}
+		if rw.val == nil || isNilConst(rw.val) {
+			// no end time on this path: it must carry an error that stops the evaluation
+			okE := rw.errv != nil && p.nilnessAt(rw.at.Block(), rw.errv, 0) == nnNonNil
+			r.check(okE, rule, key+":error", pos, "no end time -> error", "a path yields neither an end time nor an error")
+			if rw.call != nil {
+				tErr := resultOf(rw.call, 1)
+				if tErr == nil {
+					r.bad(rule, key+":error-forwarded", p.instrPos(rw.call), "the error of the end-time selection is discarded")
+				} else {
+					msg, how := p.checkForwarding(f, tErr, lastResultIdx)
+					r.check(msg == "" && knownNil(eor.Block(), tErr), rule, key+":error-forwarded", p.instrPos(rw.call), "unclosable record -> error before EndOpenRange ("+how+")", "a record that cannot be closed at this instant does not fail the evaluation: "+msg)
+				}
 			}
 			continue
 		}
 		if len(posK) != 1 {
-			r.bad(rule, key, p.instrPos(ret), "an end time is returned under %d date guards (expected one)", len(posK))
+			r.bad(rule, key, pos, "an end time is used for a record whose date is not established by exactly one comparison with the reference day (%d positive date guards): records of other dates would be closed", len(posK))
 			continue
 		}
 		k := posK[0]
 		seen[k] = true
 		switch {
 		case k == 0:
-			r.check(isClock(val) && isNilConst(ret.Results[1]), rule, key+":k=0", p.instrPos(ret), "record dated the reference day -> the clock time", "for a record dated the reference day the end time is not the clock time")
+			r.check(isClock(rw.val), rule, key+":k=0", pos, "record dated the reference day -> the clock time", "for a record dated the reference day the end time is not the (fresh) clock time")
 		case k == -1:
-			n, recv, a2, call := methodCall(val)
+			n, recv, a2, call := methodCall(rw.val)
 			ok := n == "Plus" && len(a2) == 1 && isClock(recv)
 			det := ""
 			if ok {
@@ -534,17 +525,79 @@ func ruleP02Close(p *Prog, r *Report) {
 				if okd {
 					det = m.String()
 				}
-				// and the error of Plus is the error returned
 				e := resultOf(call, 1)
-				ok = ok && e != nil && sameValue(ret.Results[1], e)
+				if e == nil {
+					ok = false
+					det += " (error of Plus discarded)"
+				} else if rw.errv != nil {
+					ok = ok && sameValue(rw.errv, e)
+				} else {
+					msg, _ := p.checkForwarding(f, e, lastResultIdx)
+					ok = ok && msg == ""
+				}
 			}
-			r.check(ok, rule, key+":k=-1", p.instrPos(ret), "record dated the day before -> clock time + 1440 minutes, Plus error returned", "for a record dated the day before the end time is not clock+1440 min with its error returned ("+det+")")
+			r.check(ok, rule, key+":k=-1", pos, "record dated the day before -> clock time + 1440 minutes, Plus error returned", "for a record dated the day before the end time is not the (fresh) clock time + 1440 min with its error returned ("+det+")")
 		default:
-			r.bad(rule, key+fmt.Sprintf(":k=%d", k), p.instrPos(ret), "a record dated reference day%+d is closed", k)
+			r.bad(rule, key+fmt.Sprintf(":k=%d", k), pos, "a record dated reference day%+d is closed", k)
 		}
 	}
-	r.check(seen[0] && seen[-1], rule, "end-time:rows", p.pos(sel.Pos()), "rows for the reference day and the day before present", "missing row for the reference day or the day before")
-	r.check(sawErr, rule, "end-time:otherwise", p.pos(sel.Pos()), "any other record date -> error", "records of other dates are not refused")
+	r.check(seen[0] && seen[-1], rule, "end-time:rows", p.instrPos(eor), "rows for the reference day and the day before present", "missing row for the reference day or the day before")
+}
+
+// vrow is one way a value can come about: the branch outcomes on that path, the value, and
+// (for closures returning (value, error)) the error returned with it.
+type vrow struct {
+	guards []Guard
+	val    ssa.Value
+	errv   ssa.Value
+	at     ssa.Instruction
+	call   ssa.CallInstruction // the closure call the row came through, if any
+}
+
+var unknownValue ssa.Value = &ssa.Alloc{Comment: "loop-carried value"}
+
+// valueRows expands v through immediately-invoked closures and phis.
+func valueRows(v ssa.Value, depth int, visiting map[ssa.Value]bool) []vrow {
+	v = strip(v)
+	if depth > 6 || visiting[v] {
+		return []vrow{{val: unknownValue}} // cyclic (loop-carried): a value that is nothing in particular
+	}
+	if ex, ok := v.(*ssa.Extract); ok {
+		if c, ok := ex.Tuple.(*ssa.Call); ok {
+			if g := staticCallee(c); g != nil && g.Parent() != nil {
+				var out []vrow
+				for _, ret := range returnsOf(g) {
+					rw := vrow{guards: guardsOf(ret.Block()), at: ret, call: c}
+					if ex.Index < len(ret.Results) {
+						rw.val = ret.Results[ex.Index]
+					}
+					if len(ret.Results) == 2 && ex.Index == 0 {
+						rw.errv = ret.Results[1]
+					}
+					out = append(out, rw)
+				}
+				return out
+			}
+		}
+	}
+	if ph, ok := v.(*ssa.Phi); ok {
+		visiting[v] = true
+		defer delete(visiting, v)
+		var out []vrow
+		for i, e := range ph.Edges {
+			pb := ph.Block().Preds[i]
+			eg := append(append([]Guard{}, guardsOf(pb)...), edgeGuard(pb, ph.Block())...)
+			for _, sub := range valueRows(e, depth+1, visiting) {
+				sub.guards = append(sub.guards, eg...)
+				if sub.at == nil && len(pb.Instrs) > 0 {
+					sub.at = pb.Instrs[len(pb.Instrs)-1]
+				}
+				out = append(out, sub)
+			}
+		}
+		return out
+	}
+	return []vrow{{val: v}}
 }
 
 // sameSliceSource: both variadic arguments are the same slice value or single-element slice
